@@ -81,15 +81,25 @@ class _Ip:  # something with a property, for PropertyPredicate
         return True
 
 
-def lower(sx):
-    """Like lift.lower, extended by the opaque kinds (leaf / box)."""
+def lower(sx, memo=None):
+    """Like lift.lower, extended by the opaque kinds (leaf / box).  With a `memo` dict, structurally equal
+    sub-terms become ONE shared object (the same predicate object at several positions of the tree)."""
+    if memo is not None:
+        key = S.show(sx)
+        if key not in memo:
+            memo[key] = _lower(sx, memo)
+        return memo[key]
+    return _lower(sx, None)
+
+
+def _lower(sx, memo):
     h = S.head(sx)
     if h in ("and", "or", "xor"):
         cls = {"and": AndPredicate, "or": OrPredicate, "xor": XorPredicate}[h]
-        return cls(left=lower(sx[1]), right=lower(sx[2]))
+        return cls(left=lower(sx[1], memo), right=lower(sx[2], memo))
     if h in ("not", "all", "any"):
         cls = {"not": NotPredicate, "all": AllPredicate, "any": AnyPredicate}[h]
-        return cls(predicate=lower(sx[1]))
+        return cls(predicate=lower(sx[1], memo))
     if h == "leaf":
         kind = int(sx[1])
         if kind == lift.LEAF_LAZY:
@@ -114,14 +124,14 @@ def lower(sx):
     if h == "box":
         kind, params, kids = int(sx[1]), sx[2], sx[3:]
         if kind == lift.BOX_COMP:
-            return CompPredicate(fn=lift.FNS[int(params[0])], predicate=lower(kids[0]))
+            return CompPredicate(fn=lift.FNS[int(params[0])], predicate=lower(kids[0], memo))
         if kind == lift.BOX_DICT_OF:
-            ks = [lower(k) for k in kids]
+            ks = [lower(k, memo) for k in kids]
             return DictOfPredicate(list(zip(ks[0::2], ks[1::2])))
         if kind == lift.BOX_TUPLE_OF:
-            return TupleOfPredicate([lower(k) for k in kids])
+            return TupleOfPredicate([lower(k, memo) for k in kids])
         if kind == lift.BOX_SET_OF:
-            return SetOfPredicate(lower(kids[0]))
+            return SetOfPredicate(lower(kids[0], memo))
         raise HarnessError(f"cannot lower {sx!r}")
     return lift.lower(sx)
 
@@ -143,9 +153,9 @@ def _assert_clean_stack():
     _stack_checked = True
 
 
-def _call_to_dot(sx, show, bind):
+def _call_to_dot(sx, show, bind, share=False):
     """The only harness frame with predicate locals while to_dot runs: `p` (and `the_pred`, the same object)."""
-    p = sx() if callable(sx) else lower(sx)
+    p = sx() if callable(sx) else lower(sx, {} if share else None)
     if bind:
         the_pred = p  # noqa: F841  the local that lazy_p("the_pred") resolves to
     try:
@@ -154,11 +164,11 @@ def _call_to_dot(sx, show, bind):
         return p, None, e
 
 
-def _real_dot(sx, show, bind):
+def _real_dot(sx, show, bind, share=False):
     """Build the predicate, call to_dot, judge the output against the real objects.  Returns plain data."""
     if not _stack_checked:
         _assert_clean_stack()
-    res = _call_to_dot(sx, show, bind)
+    res = _call_to_dot(sx, show, bind, share)
     try:
         opt = [optimize(res[0])] if show else [None]
     except Exception as e:  # noqa: BLE001  optimize's own trouble is not C17's
@@ -263,14 +273,9 @@ _SET_RE = re.compile(r"^x (\S) \{(.*)\}$", re.S)
 
 
 def fn_names(f):
-    names = set()
-    code = getattr(f, "__code__", None)
-    if code is not None:
-        names.add(code.co_name)
-    names.add(getattr(f, "__name__", type(f).__name__))
-    if not hasattr(f, "__name__"):
-        names.add(repr(f))  # a callable object without a name is named by its repr
-    return names
+    if hasattr(f, "__name__"):
+        return {f.__name__}  # "the function's name" (a functools.wraps wrapper is named like the function it wraps)
+    return {repr(f)}  # a callable object without a name is named by its repr
 
 
 def label_oracle(p, label):
@@ -435,7 +440,7 @@ def _str_const(c):
 
 
 def tok_text(t):
-    """Candidate texts of one model token (a set: canonical member order; a function: co_name or __name__)."""
+    """Candidate texts of one model token (a set: canonical member order; a function: its __name__, else repr)."""
     k = t[0]
     if k == "l":
         return ["" if t[1] == "-" else bytes.fromhex(t[1]).decode("utf-8")]
@@ -537,7 +542,10 @@ def atoms(sort):
 
 def extra_atoms():
     """Constants outside the sorted grids (only ever alone or with show_optimized off)."""
-    return [("eq", "100000"), ("ne", "100000"), ("eq", "200000"), ("in", "200001", "2", "5"), ("notin", "100000", "2"), ("gele", "200001", "200003"), ("eq", "3"), ("ge", "-1")]
+    big = tuple(str(2 * k) for k in range(1, 13))  # 1 .. 12
+    return [("eq", "100000"), ("ne", "100000"), ("eq", "200000"), ("in", "200001", "2", "5"), ("notin", "100000", "2"), ("gele", "200001", "200003"), ("eq", "3"), ("ge", "-1"),
+            ("in", *big[:7]), ("in", *big), ("notin", *big[:8]), ("subset", *big[:9]), ("rsubset", *big), ("superset", *big[:7]), ("rsuperset", *big[:10]),
+            ("in", "200001", "200003", "200005", "2", "4", "6", "8", "10")]
 
 
 def unknown_atoms():
@@ -617,6 +625,17 @@ def build_cases(rng, tier):
         out.append(("exhaustive", t, False))
     for t in ref_trees(4):
         out.append(("references", t, True))
+    # the same predicate OBJECT at several positions (lowered with a memo): still one node per occurrence
+    comps = [("and", ("ge", "2"), ("le", "5")), ("or", ("eq", "2"), ("var", "a", "0")), ("not", ("eq", "2")), ("all", ("ge", "2")), ("xor", ("var", "a", "0"), ("var", "bb", "0")),
+             ("box", "1", ("0",), ("eq", "2")), ("box", "4", (), ("eq", STR[0]), ("inst", "1")), ("any", ("and", ("ge", "2"), ("var", "a", "0")))]
+    for t in comps:
+        u = ("ge", "4")
+        for sh in [("or", t, ("not", t)), ("and", t, t), ("xor", t, ("all", t)), ("and", ("or", t, u), ("or", u, t)), ("or", ("and", t, u), ("not", ("and", t, u))),
+                   ("box", "4", (), t, t), ("not", ("xor", t, t)), ("and", ("and", t, u), ("and", u, t)), ("or", ("any", t), ("all", t))]:
+            out.append(("shared", sh, False))
+    for k in range(300 if tier == "quick" else 6000):
+        t = random_tree(rng, rng.randint(2, 4), num)
+        out.append(("shared", (rng.choice(("and", "or", "xor")), (rng.choice(("not", "all", "any")), t), random_tree(rng, 3, [t, ("eq", "2"), ("not", t)])), False))
     n_rand = 2500 if tier == "quick" else 60000
     for k in range(n_rand):
         grid = num if k % 3 else st
@@ -708,7 +727,7 @@ def main(tier):
         text = S.show(sx)
         if ans.startswith(("ERR ", "FUEL")):
             raise HarnessError(f"driver_dot answered {ans!r} for {text}")
-        real = _real_dot(sx, show, bind)
+        real = _real_dot(sx, show, bind, share=(fam == "shared"))
         if "skip" in real:
             skipped += 1
             continue
@@ -769,7 +788,7 @@ def main(tier):
         "every supported atom kind at 3-8 parameter choices (numbers incl. a float and a negative, strings, None, empty string, bounds in both orders, sets of 0-3 members, "
         "class tuples of 0-3 classes in both orders, two functions, bound and unbound references) alone, under not/all/any/comp, as key and as value of dict_of, and "
         "with 5 partners under and/or/xor in both operand orders; all trees <= %d nodes over 6 leaves; all trees <= 4 nodes over this/root/lazy(bound)/lazy(unbound)/eq "
-        "with a caller frame binding the reference; %d random trees of 3-7 nodes over the whole grid; 8 unknown kinds in 13 positions each; everything with "
+        "with a caller frame binding the reference; trees in which one composite predicate OBJECT occurs at 2-4 positions (family 'shared'); sets of 7-12 members; %d random trees of 3-7 nodes over the whole grid; 8 unknown kinds in 13 positions each; everything with "
         "show_optimized off and on.  Per case: model toDot vs parsed Digraph.body (ids, names, labels with constants decoded, edges with styles, in order), and on the "
         "real output alone: walk with the real predicate (and with the real optimize(p)), label oracle, disjoint ids, dashed edges.  non-trivial = cases with more than "
         "two nodes or where optimize changed the predicate." % (4 if tier == "quick" else 5, 2500 if tier == "quick" else 60000)
